@@ -146,6 +146,8 @@ class Harness:
 # ---------------------------------------------------------------- worker
 def _worker_init(kinds):
     import threading
+    from . import fastalloc
+    fastalloc.install()
     threading.stack_size(512 * 1024 * 1024)
     sys.setrecursionlimit(200000)
     for k in kinds:
